@@ -68,6 +68,45 @@ class PyData(Val):
         return c
 
 
+has_col = z3.Function("data_has_column", V, V, BoolS)
+
+
+def data_store(data, key, cx):
+    """-> PyData after a store into column `key` (other columns unchanged)"""
+    d2 = FreshConst(V, "data")
+    kk = z3.Const("kk!ds", V)
+    cx.assume(z3.ForAll([kk], z3.Implies(kk != key, z3.And(col_len(d2, kk) == col_len(data.t, kk), col_arr(d2, kk) == col_arr(data.t, kk),
+                                                             has_col(d2, kk) == has_col(data.t, kk))),
+                        patterns=[col_arr(d2, kk)]))
+    cx.assume(z3.ForAll([kk], z3.Implies(kk != key, col_len(d2, kk) == col_len(data.t, kk)), patterns=[col_len(d2, kk)]))
+    return PyData(d2)
+
+
+def _key_term(k):
+    from .engine import str_term
+    if isinstance(k, PyStr):
+        return str_term(k.s)
+    return Vs_t(k)
+
+
+def _data_delitem(self, cx, k):
+    """del data[k]: KeyError when the column is missing; the other columns stay"""
+    kt = _key_term(k)
+    cx.raise_if(z3.Not(has_col(self.t, kt)), "KeyError")
+    new = data_store(self, kt, cx)
+    cx.assume(z3.Not(has_col(new.t, kt)))
+    return new
+
+
+def _data_pop(self, cx, k):
+    new = _data_delitem(self, cx, k)
+    return PyObj(FreshConst(V, "popped")), new
+
+
+PyData.py_delitem = _data_delitem
+PyData.m_pop = _data_pop
+
+
 def Vs_t(x):
     return x.t if isinstance(x, Val) else x
 
